@@ -36,6 +36,9 @@ type c13sScenario struct {
 	// Sibling: another server of the same configuration with settings of its own (a filter that
 	// matches octet-stream only, 5kb), listed before or after the server under test
 	Sibling string `json:"sibling,omitempty"` // "", before, after
+	// UpAE: the upstream's configured acceptEncoding option (what pike asks the upstream for; the
+	// upstream of this check answers with UpEnc whatever it is asked for)
+	UpAE string `json:"upAE,omitempty"`
 }
 
 var (
@@ -55,6 +58,7 @@ func genC13s(t *rapid.T) c13sScenario {
 		Cacheable: rapid.Bool().Draw(t, "cacheable"),
 		UpEnc:     rapid.SampledFrom([]string{"", "", "", "gzip"}).Draw(t, "upEnc"),
 		Sibling:   rapid.SampledFrom([]string{"", "before", "before", "after"}).Draw(t, "sibling"),
+		UpAE:      rapid.SampledFrom([]string{"", "", "gzip", "gzip, br"}).Draw(t, "upAE"),
 	}
 	thr := map[string]int{"": 1024, "100": 100, "2kb": 2000}[sc.MinLength]
 	sc.Size = rapid.SampledFrom([]int{0, 10, 99, 101, thr - 1, thr + 1, 1023, 1025, 1999, 2001, 5000}).Draw(t, "size")
@@ -78,7 +82,7 @@ func execC13s(sc c13sScenario) *vstat.Outcome {
 		cacheName := fmt.Sprintf("c13s-%d", n)
 		cfg := &config.PikeConfig{
 			Caches:    []config.CacheConfig{{Name: cacheName, Size: 1000, HitForPass: "5m"}},
-			Upstreams: []config.UpstreamConfig{{Name: "c13sup", Servers: []config.UpstreamServerConfig{{Addr: c13sUp.URL()}}}},
+			Upstreams: []config.UpstreamConfig{{Name: "c13sup", AcceptEncoding: sc.UpAE, Servers: []config.UpstreamServerConfig{{Addr: c13sUp.URL()}}}},
 			Locations: []config.LocationConfig{{Name: "c13sloc", Upstream: "c13sup"}},
 			Servers:   []config.ServerConfig{{Addr: addrKey, Locations: []string{"c13sloc"}, Cache: cacheName, CompressMinLength: minLength, CompressContentTypeFilter: filter}},
 		}
@@ -205,6 +209,9 @@ func execC13s(sc c13sScenario) *vstat.Outcome {
 	}
 	if sc.Sibling != "" {
 		out.Class("sibling_server_" + sc.Sibling)
+	}
+	if sc.UpAE != "" {
+		out.Class("upstream_accept_encoding_option")
 	}
 	return out
 }
